@@ -313,7 +313,7 @@ def bound(cfgset):
     return (eff_ll or 0) + cap + 65536
 
 
-def run_part_b(run, e1, name, cfgset, piece, factor):
+def run_part_b(run, e1, name, cfgset, piece, factor, unread=False):
     prefix, unit, _ = FLOODS[name]
     if name == "request-line" and effective(cfgset)[0] is None:
         return
@@ -323,6 +323,10 @@ def run_part_b(run, e1, name, cfgset, piece, factor):
     surfaced = [0]
 
     def consumer(body):
+        if unread:
+            # the application answers without touching wsgi.input: the parser itself has to get past the body (and its chunk-size
+            # lines and trailer section) before the next request - under the same bound
+            return b""
         while True:
             d = body.read(8192)
             if not d:
@@ -333,31 +337,34 @@ def run_part_b(run, e1, name, cfgset, piece, factor):
     src = endless(prefix, unit, piece, stop_at)
     obs = e1.observe(cfg, src, consumer=consumer, max_reqs=4)
     held = obs["pulled"] - surfaced[0]
-    run.case(("B", name, json.dumps(cfgset, sort_keys=True), piece))
+    run.case(("B", name, json.dumps(cfgset, sort_keys=True), piece, unread))
     run.count("B_floods")
+    if unread:
+        run.count("B_floods_body_left_unread")
     run.info["B_max_held_over_bound_permille#max"] = max(
         run.info.get("B_max_held_over_bound_permille#max", 0), int(1000 * held / b))
     rejected = obs["terminal"][0] in ("reject", "body_error")
     if rejected and held <= b:
         run.count("B_rejected_within_bound")
     if held > b:
-        run.violation("unbounded-buffering/" + name,
+        run.violation("unbounded-buffering/" + name + ("/body-left-unread" if unread else ""),
                       "endless %s: parser pulled %d bytes (surfaced %d as body) without rejecting; bound for this "
                       "configuration is %d; terminal=%s" % (name, obs["pulled"], surfaced[0], b, obs["terminal"]),
-                      {"part": "B", "flood": name, "cfg": cfgset, "piece": piece, "factor": factor})
+                      {"part": "B", "flood": name, "cfg": cfgset, "piece": piece, "factor": factor, "unread": unread})
     elif not rejected:
         # source ran dry below the bound without a rejection: cannot happen (stop_at > bound)
         run.inconclusive_because("flood %s ended below the bound without rejection: %s" % (name, obs["terminal"]))
 
 
-def run_part_c(run, e2, kind, name, cfgset):
+def run_part_c(run, e2, kind, name, cfgset, unread=False):
     """The same floods against a real worker loop (engine E2): once the head is refused, the worker must let go - what the client can
-    still push into the connection is bounded by the configuration-derived bound plus what sockets buffer on their own."""
+    still push into the connection is bounded by the configuration-derived bound plus what sockets buffer on their own.
+    unread: the application answers without reading the body; a keep-alive worker then skips it on its way to the next request."""
     prefix, unit, needs_body = FLOODS[name]
     h = e2.Harness(kind, dict(cfgset, keepalive=2))
 
     def app(environ, start_response):
-        if needs_body:
+        if needs_body and not unread:
             environ["wsgi.input"].read()
         start_response("200 OK", [("Content-Length", "2")])
         return [b"ok"]
@@ -365,15 +372,17 @@ def run_part_c(run, e2, kind, name, cfgset):
         b = bound(cfgset)
         limit = b + 12 * 1024 * 1024
         out = h.connection(prefix, app, flood=(unit, limit), timeout=20.0, mode="close")
-        run.case(("C", kind, name, json.dumps(cfgset, sort_keys=True)))
+        run.case(("C", kind, name, json.dumps(cfgset, sort_keys=True), unread))
         run.count("C_worker_floods")
+        if unread:
+            run.count("C_worker_floods_body_left_unread")
         sent = out["flood_sent"] or 0
         run.info["C_max_flood_taken#max"] = max(run.info.get("C_max_flood_taken#max", 0), sent)
         if sent > b + 4 * 1024 * 1024:
-            run.violation("worker-keeps-taking-input/" + name,
+            run.violation("worker-keeps-taking-input/" + name + ("/body-left-unread" if unread else ""),
                           "%s worker, endless %s: the client pushed %d bytes into the connection (bound for this configuration %d, "
                           "plus socket buffers) and was %s" % (kind, name, sent, b, out["client_err"] or "never turned away"),
-                          {"part": "C", "kind": kind, "flood": name, "cfg": cfgset})
+                          {"part": "C", "kind": kind, "flood": name, "cfg": cfgset, "unread": unread})
         else:
             run.count("C_client_turned_away_within_bound")
     finally:
@@ -395,11 +404,13 @@ def shard(sh):
                         "fields": c[4], "longest_field": c[5]})
     elif sh["kind"] == "C":
         from vlib import e2_worker as e2
-        for kind, name in sh["cells"]:
-            run_part_c(run, e2, kind, name, sh["cfg"])
+        for cell in sh["cells"]:
+            run_part_c(run, e2, cell[0], cell[1], sh["cfg"], unread=len(cell) > 2 and bool(cell[2]))
         run.sample({"part": "C", "cells": sh["cells"][:3], "cfg": sh["cfg"]}, cap=1)
     else:
-        run_part_b(run, e1, sh["flood"], sh["cfg"], sh["piece"], sh["factor"])
+        run_part_b(run, e1, sh["flood"], sh["cfg"], sh["piece"], sh["factor"], unread=sh.get("unread", False))
+        for name in sh.get("more_unread", ()):
+            run_part_b(run, e1, name, sh["cfg"], sh["piece"], sh["factor"], unread=True)
         run.sample({"part": "B", "flood": sh["flood"], "cfg": sh["cfg"], "read_size": sh["piece"],
                     "bound": bound(sh["cfg"])}, cap=1)
     return run
@@ -408,7 +419,8 @@ def shard(sh):
 def main(tier, seed):
     run = Run(PROP, tier, seed, "exploration", RULE)
     run.require("A_accept_ok", "A_reject_ok", "A_either", "B_floods", "B_rejected_within_bound", "A_proxy_line_cases", "A_folded_field_cases", "C_worker_floods",
-                "C_client_turned_away_within_bound")
+                "C_client_turned_away_within_bound", "A_either_one_verdict_for_all_deliveries", "A_fields_limit_zero_cases",
+                "A_cut_between_cr_lf_of_request_line", "B_floods_body_left_unread", "C_worker_floods_body_left_unread")
     q = tier == "quick"
     shards = [{"kind": "A", "sub": i, "of": 16, "seed": seed, "tier": tier} for i in range(16)]
     rng = rng_for(seed, "c12-main")
@@ -419,18 +431,27 @@ def main(tier, seed):
                     continue
                 shards.append({"kind": "B", "flood": name, "cfg": cfgset, "piece": piece,
                                "factor": 4 if q else 16, "seed": seed, "tier": tier})
+                if FLOODS[name][2]:
+                    # the same flood once more with an application that leaves the body unread (the parser skips it)
+                    shards[-1]["more_unread"] = [name]
     if q:
         shards.append({"kind": "B", "flood": "trailer-lines", "cfg": FLOOD_CFGS[1], "piece": 1, "factor": 4,
                        "seed": seed, "tier": tier})
         shards.append({"kind": "B", "flood": "header-line", "cfg": FLOOD_CFGS[1], "piece": 1, "factor": 4,
                        "seed": seed, "tier": tier})
     ccells = [(k, n) for n in FLOODS for k in ("sync", "gthread", "async")]
+    # ... and with the body left unread, on the loops that keep the connection (the sync worker closes after its one response)
+    ccells += [(k, n, True) for n in FLOODS if FLOODS[n][2] for k in ("gthread", "async")]
     for i, cfgset in enumerate([FLOOD_CFGS[1], FLOOD_CFGS[3]] + ([] if q else [FLOOD_CFGS[0], FLOOD_CFGS[2]])):
         for j in range(4):
             shards.append({"kind": "C", "cells": ccells[j::4], "cfg": cfgset, "seed": seed, "tier": tier})
     run.assumptions = [
         "tolerance band: an element of exactly limit-1 or limit bytes may be accepted or rejected (docs do not say whether CRLF counts)",
-        "limit_request_fields=0 is not judged (undocumented); heads larger than the configuration-derived buffer cap are not judged for acceptance",
+        "limit_request_fields=0 (undocumented) is judged for acceptance only for a request without fields; heads larger than the configuration-derived "
+        "buffer cap are not judged for acceptance",
+        "where the verdict is left open (tolerance band, limit_request_fields=0, PROXY line longer than limit_request_line) it must still be ONE verdict: "
+        "the same request served in one delivery and refused with a Limit* error in another breaks the statement under either reading",
+        "floods are repeated with an application that does not read the body: the parser's own skipping of an unread body is under the same bound",
         "bound(cfg) = limit_request_line + fields*(field_size+2)+4 + 64 KiB; anything below passes, the source stops at 4x (16x thorough)",
         "header fields dropped by header_map=drop still count against limit_request_fields (settings documentation / code comment)",
     ]
@@ -441,7 +462,7 @@ def main(tier, seed):
 def replay_c(case):
     from vlib import e2_worker as e2
     run = Run(PROP, "quick", 0, "exploration", RULE)
-    run_part_c(run, e2, case["kind"], case["flood"], case["cfg"])
+    run_part_c(run, e2, case["kind"], case["flood"], case["cfg"], unread=case.get("unread", False))
     return run
 
 
@@ -452,16 +473,22 @@ def replay(path):
     c = rec["case"]
     run = Run(PROP, "quick", 0, "exploration", RULE)
     if c["part"] == "B":
-        run_part_b(run, e1, c["flood"], c["cfg"], c["piece"], c["factor"])
+        run_part_b(run, e1, c["flood"], c["cfg"], c["piece"], c["factor"], unread=c.get("unread", False))
     elif c["part"] == "C":
         run = replay_c(c)
     else:
         cfg = e1.make_cfg(**c["cfg"])
         stream = bytes.fromhex(c["stream"])
-        obs = e1.observe(cfg, gen.cut(stream, c["cuts"]))
+        kw = {"peer": ("127.0.0.1", 5000)} if c["cfg"].get("proxy_protocol") else {}
+        obs = e1.observe(cfg, gen.cut(stream, c["cuts"]), **kw)
         accepted = bool(obs["reqs"])
         print("want=%s accepted=%s terminal=%s" % (c["want"], accepted, obs["terminal"]))
-        if (c["want"] == "accept") != accepted:
+        if c["want"] == "one-verdict":
+            obs2 = e1.observe(cfg, gen.cut(stream, c["cuts_served"]), **kw)
+            print("with cuts %s: accepted=%s terminal=%s" % (c["cuts_served"][:6], bool(obs2["reqs"]), obs2["terminal"]))
+            if accepted != bool(obs2["reqs"]):
+                run.violation(rec["mechanism"], rec["summary"], c)
+        elif (c["want"] == "accept") != accepted:
             run.violation(rec["mechanism"], rec["summary"], c)
     for mech, s, _ in run.violations:
         print("VIOLATION property=%s replay=%s\n  %s %s" % (PROP, path, mech, s))
